@@ -30,8 +30,6 @@ var bceReviewed = map[string]bceEntry{
 	"errors|*yaml.TypeError.Errors[0]": {1, "yaml.TypeError is only constructed with at least one message; the > 1 case is handled by the other branch", ""},
 	"task|*editors.Taskfile.Tasks[int]": {2, "o.Tasks is made with len(tasks) and the index ranges over tasks", ""},
 	"task|[]*ast.Task[int]":   {3, "index is the loop variable of a `for i := range tasks` over the same slice (closure per iteration)", ""},
-	"internal/env|[]string[0]": {1, "strings.SplitN always returns at least one element", ""},
-	"internal/env|[]string[1]": {1, "process-level: every os.Environ() entry has the form key=value; not Taskfile input", ""},
 	"internal/execext|[]*syntax.Word[0]": {1, "guarded by the len(words) == 0 return just above", "nonempty"},
 	"internal/flags|os.Args[1:]": {1, "process-level: os.Args is never empty", ""},
 	"internal/slicesext|[]T[int:]": {1, "i is the running sum of copied lengths and r was made with the total length", ""},
